@@ -1,4 +1,5 @@
 //! C01 — consensus encoding is an exact bijection on canonical values.
+use crate::refimpl::Variant as _;
 use std::fmt::Debug;
 use std::io;
 
@@ -422,7 +423,7 @@ impl AnyVal {
             }
             AnyVal::TxOut(o) => {
                 let mut f = vec![];
-                if o.asset.is_confidential() || o.value.is_confidential() || o.nonce.is_confidential() {
+                if o.asset.v_conf() || o.value.v_conf() || o.nonce.v_conf() {
                     f.push("confidential");
                 }
                 if o.script_pubkey.len() >= 0xfd {
@@ -453,21 +454,21 @@ impl AnyVal {
             }
             AnyVal::FullParams(_) => vec!["dynafed"],
             AnyVal::Asset(a) => {
-                if a.is_confidential() {
+                if a.v_conf() {
                     vec!["confidential"]
                 } else {
                     vec![]
                 }
             }
             AnyVal::Value(a) => {
-                if a.is_confidential() {
+                if a.v_conf() {
                     vec!["confidential"]
                 } else {
                     vec![]
                 }
             }
             AnyVal::Nonce(a) => {
-                if a.is_confidential() {
+                if a.v_conf() {
                     vec!["confidential"]
                 } else {
                     vec![]
